@@ -524,6 +524,35 @@ def grammar_packs():
     out.append(("overlong-incompressible-300K-declared-66000", fin(hdr(1) + W.entry_header(3, 66000) + zlib.compress(noisy)), 66000))
     out.append(("overlong-delta-stored-2MiB-declared-70000", fin(hdr(2) + good[12:] + W.entry_header(6, 70000) + W.ofs_encode(len(good) - 12) +
                                                                zlib.compress(b"\x07" * (2 << 20), 0)), 70000))
+    # hostile delta *content* inside a structurally perfect pack (base = the 70-byte blob at offset 12)
+    L = len(blob)
+
+    def dpack(name, payload, ref=False):
+        ent = (W.entry_header(7, len(payload)) + bid) if ref else (W.entry_header(6, len(payload)) + W.ofs_encode(len(good) - 12))
+        out.append((name + ("-ref" if ref else "-ofs"), fin(hdr(2) + good[12:] + ent + zlib.compress(payload))))
+    vs = W.encode_varint_size
+    for ref in (False, True):
+        dpack("delta-copy-runs-past-base-end", vs(L) + vs(8) + bytes([0x91, L - 4, 8]), ref)
+        dpack("delta-copy-starts-past-base-end", vs(L) + vs(4) + bytes([0x91, L + 10, 4]), ref)
+        dpack("delta-copy-offset-4GiB", vs(L) + vs(4) + bytes([0x9f, 0xff, 0xff, 0xff, 0xff, 4]), ref)
+        dpack("delta-copy-size-0-means-64K", vs(L) + vs(0x10000) + bytes([0x80]), ref)
+        dpack("delta-copy-size-bytes-all-zero", vs(L) + vs(0x10000) + bytes([0x90, 0x00]), ref)
+        dpack("delta-insert-runs-past-delta-end", vs(L) + vs(20) + bytes([20]) + b"short", ref)
+        dpack("delta-result-shorter-than-declared", vs(L) + vs(50) + bytes([0x90, 10]), ref)
+        dpack("delta-result-longer-than-declared", vs(L) + vs(5) + bytes([0x90, 40]), ref)
+        dpack("delta-base-size-mismatch", vs(L + 7) + vs(10) + bytes([0x90, 10]), ref)
+        dpack("delta-reserved-opcode-0", vs(L) + vs(10) + bytes([0x00, 0x90, 10]), ref)
+        dpack("delta-truncated-varint", b"\xff\xff", ref)
+        dpack("delta-size-varint-12-bytes", b"\xff" * 11 + b"\x01" + vs(4) + bytes([0x90, 4]), ref)
+        dpack("delta-valid-control", vs(L) + vs(10) + bytes([0x90, 10]), ref)
+    # malformed payload that comes after well-formed objects (the pack is structurally perfect): nothing of it may stay
+    blob2 = b"second good blob\n"
+    for t, nm, bad in ((2, "tree", b"100644 nameonly"), (2, "tree-badmode", b"1x0644 a\0" + b"\x11" * 20), (1, "commit", b"tree\nparent\n"), (4, "tag", b"object\ntype\n"),
+                       (1, "commit-notree", b"author A <a@b> 1 +0000\n\nmsg\n")):
+        body = hdr(3) + good[12:] + W.entry_header(3, len(blob2)) + zlib.compress(blob2) + W.entry_header(t, len(bad)) + zlib.compress(bad)
+        out.append(("good-objects-then-malformed-" + nm, fin(body)))
+        body = hdr(3) + W.entry_header(t, len(bad)) + zlib.compress(bad) + good[12:] + W.entry_header(3, len(blob2)) + zlib.compress(blob2)
+        out.append(("malformed-" + nm + "-then-good-objects", fin(body)))
     out.append(("two-packs-concatenated", fin(good) + fin(good)))
     out.append(("empty-pack", fin(hdr(0))))
     out.append(("only-header", hdr(1)))
@@ -698,13 +727,83 @@ def run_case(case):
 
 SEED_LEN_GUESS = {"git-full": 2200, "git-ofs": 1500, "git-ref": 1500, "git-thin": 1200, "dulwich-deltified": 1600}
 PATHS = ["add_thin_pack", "add_pack+commit", "stream-reader", "memory-add_thin_pack", "receive-pack"]
-GRAMMAR = ["count+1", "count-1-with-extra-object", "count-huge", "count-zero-with-object", "wrong-trailer", "version-3", "version-9", "bad-magic",
-           "size-header-too-small", "size-header-too-big", "size-header-2^64", "zlib-trailing-garbage", "type-0", "type-5", "ofs-delta-offset-0",
-           "ofs-delta-beyond-start", "ofs-delta-into-middle-of-entry", "ofs-delta-forward-first-entry", "ref-delta-to-self", "ref-delta-missing-base",
-           "ref-delta-two-cycle", "delta-empty-payload", "zero-payload-commit", "garbage-commit", "headerless-commit", "zero-payload-tree", "garbage-tree",
-           "headerless-tree", "zero-payload-tag", "garbage-tag", "headerless-tag", "bomb-declared-small", "bomb-declared-1MiB", "overlong-stored-4MiB-declared-70000",
-           "overlong-incompressible-300K-declared-66000", "overlong-delta-stored-2MiB-declared-70000", "valid-depth-40-chain",
-           "two-packs-concatenated", "empty-pack", "only-header", "nothing"]
+GRAMMAR = ['count+1',
+           'count-1-with-extra-object',
+           'count-huge',
+           'count-zero-with-object',
+           'wrong-trailer',
+           'version-3',
+           'version-9',
+           'bad-magic',
+           'size-header-too-small',
+           'size-header-too-big',
+           'size-header-2^64',
+           'zlib-trailing-garbage',
+           'type-0',
+           'type-5',
+           'ofs-delta-offset-0',
+           'ofs-delta-beyond-start',
+           'ofs-delta-into-middle-of-entry',
+           'ofs-delta-forward-first-entry',
+           'ref-delta-to-self',
+           'ref-delta-missing-base',
+           'ref-delta-two-cycle',
+           'delta-empty-payload',
+           'zero-payload-commit',
+           'garbage-commit',
+           'headerless-commit',
+           'zero-payload-tree',
+           'garbage-tree',
+           'headerless-tree',
+           'zero-payload-tag',
+           'garbage-tag',
+           'headerless-tag',
+           'bomb-declared-small',
+           'bomb-declared-1MiB',
+           'valid-depth-40-chain',
+           'overlong-stored-4MiB-declared-70000',
+           'overlong-incompressible-300K-declared-66000',
+           'overlong-delta-stored-2MiB-declared-70000',
+           'delta-copy-runs-past-base-end-ofs',
+           'delta-copy-starts-past-base-end-ofs',
+           'delta-copy-offset-4GiB-ofs',
+           'delta-copy-size-0-means-64K-ofs',
+           'delta-copy-size-bytes-all-zero-ofs',
+           'delta-insert-runs-past-delta-end-ofs',
+           'delta-result-shorter-than-declared-ofs',
+           'delta-result-longer-than-declared-ofs',
+           'delta-base-size-mismatch-ofs',
+           'delta-reserved-opcode-0-ofs',
+           'delta-truncated-varint-ofs',
+           'delta-size-varint-12-bytes-ofs',
+           'delta-valid-control-ofs',
+           'delta-copy-runs-past-base-end-ref',
+           'delta-copy-starts-past-base-end-ref',
+           'delta-copy-offset-4GiB-ref',
+           'delta-copy-size-0-means-64K-ref',
+           'delta-copy-size-bytes-all-zero-ref',
+           'delta-insert-runs-past-delta-end-ref',
+           'delta-result-shorter-than-declared-ref',
+           'delta-result-longer-than-declared-ref',
+           'delta-base-size-mismatch-ref',
+           'delta-reserved-opcode-0-ref',
+           'delta-truncated-varint-ref',
+           'delta-size-varint-12-bytes-ref',
+           'delta-valid-control-ref',
+           'good-objects-then-malformed-tree',
+           'malformed-tree-then-good-objects',
+           'good-objects-then-malformed-tree-badmode',
+           'malformed-tree-badmode-then-good-objects',
+           'good-objects-then-malformed-commit',
+           'malformed-commit-then-good-objects',
+           'good-objects-then-malformed-tag',
+           'malformed-tag-then-good-objects',
+           'good-objects-then-malformed-commit-notree',
+           'malformed-commit-notree-then-good-objects',
+           'two-packs-concatenated',
+           'empty-pack',
+           'only-header',
+           'nothing']
 
 
 def main(ctx):
